@@ -1124,7 +1124,7 @@ class reductions_numpy:
     """every reduction over any axes, keepdims and split_every gives NumPy's result whatever the chunking and fan-in"""
     bounded_only = True
     params = {"func": "const", "chunks": "const", "axis": "const", "keepdims": "const", "split_every": "const", "nanpat": "const"}
-    scope = ("4x6 float data, four NaN patterns (sparse, block-local all-NaN lanes, dense, a whole NaN row) for the nan-variants; 28 reducers (incl. central moments of order 3-5 on skewed data, ptp, count_nonzero, average, topk/argtopk); axes None/0/1/(0,1); keepdims; split_every None/2/3/{0:2,1:3}; "
+    scope = ("4x6 float data, four NaN patterns (sparse, block-local all-NaN lanes, dense, a whole NaN row) for the nan-variants; 28 reducers (incl. central moments of order 3-5 on skewed data, ptp, count_nonzero, average, topk/argtopk); axes None/0/1/(0,1); keepdims; split_every None/1/2/3/{0:2,1:3}/{0:1,1:4}; "
              "layouts from single block to 1x1 blocks")
 
     def real():
@@ -1206,7 +1206,7 @@ class reductions_numpy:
                  "count_nonzero", "average", "topk", "argtopk", "topk6", "argtopk6", "argtopk4"]
         layouts = [((4,), (6,)), ((2, 2), (3, 3)), ((1, 1, 1, 1), (1,) * 6), ((3, 1), (1, 5)), ((1, 3), (2, 2, 2))]
         axes = [None, 0, 1, (0, 1)]
-        ses = [None, 2, 3, {0: 2, 1: 3}]
+        ses = [None, 2, 3, {0: 2, 1: 3}, {0: 1, 1: 4}, 1]
         combos = [(f, l, a, k, s, p) for f in funcs for l in layouts for a in axes for k in (False, True) for s in ses
                   for p in ((0, 1, 2, 3) if f.startswith("nan") else (0,))]
         if tier == "quick":
